@@ -35,6 +35,11 @@ pub enum P {
     StreamStream(S, S),
     /// async with builders: `request(a).into_future(ctx)`, `notify(n).into_future(ctx)`, `stream(b).into_stream(ctx)`
     IntoFuture(S, S, S),
+    /// Core hosts only: the sub-program is realised through the legacy capability API while `update` runs
+    Legacy(Box<P>),
+    /// Core hosts only: a command task awaits req a, then calls a *legacy* capability, which spawns a
+    /// capability task that notifies the shell (site n, arg = value)
+    MixedNotify(S, S),
     /// `request(a).map(f).then_send(got)`
     ReqMap(S),
     /// `stream(a).map(f).then_send(got)`
@@ -89,7 +94,7 @@ impl P {
     pub fn size(&self) -> usize {
         match self {
             P::Trigger(_, p) | P::Manual(p) | P::SiblingAbort(_, p) | P::MapEffect(p) | P::MapEvent(p)
-            | P::FromInto(p) | P::Abortable(_, p) => 1 + p.size(),
+            | P::FromInto(p) | P::Abortable(_, p) | P::Legacy(p) => 1 + p.size(),
             P::Then(a, b) | P::And(a, b) => 1 + a.size() + b.size(),
             P::All(v) => 1 + v.iter().map(P::size).sum::<usize>(),
             _ => 1,
@@ -99,7 +104,7 @@ impl P {
     pub fn children_mut(&mut self) -> Vec<&mut P> {
         match self {
             P::Trigger(_, p) | P::Manual(p) | P::SiblingAbort(_, p) | P::MapEffect(p) | P::MapEvent(p)
-            | P::FromInto(p) | P::Abortable(_, p) => vec![p.as_mut()],
+            | P::FromInto(p) | P::Abortable(_, p) | P::Legacy(p) => vec![p.as_mut()],
             P::Then(a, b) | P::And(a, b) => vec![a.as_mut(), b.as_mut()],
             P::All(v) => v.iter_mut().collect(),
             _ => vec![],
@@ -109,7 +114,7 @@ impl P {
     pub fn children(&self) -> Vec<&P> {
         match self {
             P::Trigger(_, p) | P::Manual(p) | P::SiblingAbort(_, p) | P::MapEffect(p) | P::MapEvent(p)
-            | P::FromInto(p) | P::Abortable(_, p) => vec![p.as_ref()],
+            | P::FromInto(p) | P::Abortable(_, p) | P::Legacy(p) => vec![p.as_ref()],
             P::Then(a, b) | P::And(a, b) => vec![a.as_ref(), b.as_ref()],
             P::All(v) => v.iter().collect(),
             _ => vec![],
@@ -122,7 +127,7 @@ impl P {
             | P::SelfWake(a, _) | P::Trigger(a, _) | P::SiblingAbort(a, _) => vec![a],
             P::ReqReq(a, b) | P::ReqStream(a, b) | P::StreamReq(a, b) | P::StreamStream(a, b)
             | P::Join(a, b) | P::Select(a, b) | P::SpawnJoin(a, b) | P::SpawnAfter(a, b) | P::Burst(a, b) | P::Channel(a, b)
-            | P::Unordered(a, b) | P::JoinTwice(a, b) => vec![a, b],
+            | P::Unordered(a, b) | P::JoinTwice(a, b) | P::MixedNotify(a, b) => vec![a, b],
             P::AbortChild(a, b, c) | P::IntoFuture(a, b, c) => vec![a, b, c],
             _ => vec![],
         }
